@@ -696,3 +696,83 @@ def rule_C5(prog):
                     r.find(fn.path, "deadline-flows-to:" + c["path"], "%s hands a deadline value to %s, which is neither a "
                            "deadline carrier nor the probe" % (fn.path, c["path"]), file=fn.file, line=t["line"])
     return r
+
+
+def rule_C6(prog):
+    r = RuleResult("C6", "a function that carries or originates a deadline never calls the no-deadline wrapper of a "
+                         "deadline-taking function (`myers::diff` instead of `myers::diff_deadline`, `capture_diff` "
+                         "instead of `capture_diff_deadline`): the deadline would silently stop there")
+    d = dl(prog)
+    # wrappers: non-carriers that pass None to a deadline parameter of a local callee
+    wrappers = {}
+    for fn in prog.user_fns():
+        if not fn.mir or fn.path in d.carriers or fn.kind == "Closure":
+            continue
+        for bb, t in fn.mir.calls():
+            c = fn.mir.callee(t)
+            if not c:
+                continue
+            g, pos = d.callee_deadline_positions(c)
+            for i in pos:
+                if d.derives(fn, fn.mir.resolve_operand(t["args"][i])) == "none":
+                    wrappers[fn.path] = g.path
+    # transitive: a non-carrier calling a wrapper is a wrapper too
+    changed = True
+    while changed:
+        changed = False
+        for fn in prog.user_fns():
+            if not fn.mir or fn.path in d.carriers or fn.path in wrappers or fn.kind == "Closure":
+                continue
+            for bb, t in fn.mir.calls():
+                c = fn.mir.callee(t)
+                p = (c.get("resolved") if c and c.get("resolved_local") else (c or {}).get("path"))
+                if p in wrappers and fn.module not in ("utils",):
+                    wrappers[fn.path] = p
+                    changed = True
+                    break
+    r.counters["wrappers"] = len(wrappers)
+    r.samples.append("no-deadline wrappers: " + ", ".join(sorted(wrappers)))
+    holders = set(d.carriers) | {f.path for f in prog.user_fns() if f.name in ORIGINATORS and f.path not in d.carriers}
+    for path in sorted(holders):
+        fn = prog.fn(path)
+        if fn is None or not fn.mir:
+            continue
+        info = d.carriers.get(path, {"params": [], "field": False})
+        # only functions that really hold a deadline value: a parameter, or a field they read
+        bodies = [fn] + list(prog.closures_of.get(path, []))
+        if not info["params"] and info["field"]:
+            reads = False
+            for b in bodies:
+                for blk in b.mir.blocks:
+                    for s in blk["stmts"]:
+                        if s["k"] == "assign" and "deadline" in str(s["rv"]):
+                            reads = True
+            if not reads and not _calls_deadline_taker(d, fn):
+                continue
+        for b in bodies:
+            for bb, t in b.mir.calls():
+                c = b.mir.callee(t)
+                if not c:
+                    continue
+                p = c.get("resolved") if c.get("resolved_local") else c["path"]
+                if p in wrappers:
+                    r.instances += 1
+                    r.ob(False, "%s calls the no-deadline wrapper %s" % (path, p))
+                    r.find(path, "drops-deadline:%s" % p, "%s holds a deadline but calls %s, the no-deadline wrapper of %s: the "
+                           "deadline does not reach the algorithm on this path" % (path, p, wrappers[p]), file=fn.file, line=t["line"])
+                else:
+                    g, pos = d.callee_deadline_positions(c)
+                    if pos:
+                        r.instances += 1
+                        r.ob(True, "%s -> %s (deadline-taking variant)" % (path, p))
+    return r
+
+
+def _calls_deadline_taker(d, fn):
+    for bb, t in fn.mir.calls():
+        c = fn.mir.callee(t)
+        if c:
+            g, pos = d.callee_deadline_positions(c)
+            if pos:
+                return True
+    return False
